@@ -246,4 +246,150 @@ def write (data : Option WB) (script : List Nat) : WriteRes :=
     | none => .panic
     | some (out, w') => if w'.remaining = 0 then .ready out else .pending out w'
 
+/-! ### the same loop against a transport that can fail (C06: completion of the send calls)
+
+The acceptance script above is what the peer's *flow control* does.  The peer can also end the
+stream or the connection: after its STOP_SENDING the transport answers the next `poll_ready` /
+`poll_finish` with `StreamTerminated { error_code }`, after a connection close / a timeout every
+call — `poll_open_bidi` of a `send_request` waiting for stream credit included — answers the
+`ConnectionErrorIncoming`.  `stream::write` returns that error through `?`; so do the API calls
+built from it (`send_request` = `poll_open_bidi` + one write, `send_response` / `send_data` /
+`send_trailers` = one write, `finish` = the grease frame if one is due + `poll_finish`). -/
+
+/-- `StreamErrorIncoming` as a send-side call meets it -/
+inductive WErr where
+  /-- `StreamTerminated { error_code }`: the peer's STOP_SENDING has arrived -/
+  | terminated (code : Nat)
+  /-- `ConnectionErrorIncoming { .. }`: the peer closed the connection, or it timed out
+      (`q` names the variant) -/
+  | conn (q : Nat)
+  | unknown
+deriving Repr, DecidableEq
+
+/-- one answer of the transport to a poll of a send-side call: inside `poll_ready` it takes up
+    to `k` bytes of the current chunk (`take 0` = `Pending`); a call that moves no bytes
+    (`poll_open_bidi`, `poll_finish`) reads `take 0` as `Pending` and any other `take` as `Ok`;
+    `err e` = the call fails with `e` -/
+inductive Acc where
+  | take (k : Nat)
+  | err (e : WErr)
+deriving Repr, DecidableEq
+
+inductive WriteResE where
+  /-- `write()` returned `Ok(())`; `rest` = the answers not asked for -/
+  | ready (out : Bytes) (rest : List Acc)
+  /-- `write()` returned `Err(e)` after `out` had gone to the transport -/
+  | failed (out : Bytes) (e : WErr)
+  /-- the script ended before the buffer was empty: `write()` is still pending -/
+  | pending (out : Bytes) (left : WB)
+  | panic
+deriving Repr, DecidableEq
+
+/-- the `poll_ready` loop of `stream::write`: `while data.has_remaining()` one `poll_write`;
+    `out` = what went to the transport so far -/
+def WB.drainE : WB → Bytes → List Acc → WriteResE
+  | w, out, [] => if w.remaining = 0 then .ready out [] else .pending out w
+  | w, out, .err e :: r => if w.remaining = 0 then .ready out (.err e :: r) else .failed out e
+  | w, out, .take k :: r =>
+    if w.remaining = 0 then .ready out (.take k :: r)
+    else match w.step k with
+      | none => .panic
+      | some (o, w') => WB.drainE w' (out ++ o) r
+
+/-- `stream::write(stream, data)` against a transport that can fail. -/
+def writeE (data : Option WB) (script : List Acc) : WriteResE :=
+  match data with
+  | none => .panic
+  | some w => w.drainE [] script
+
+/-- what an API call of the send side waits for, in order -/
+inductive Stage where
+  /-- a transport call that moves no bytes, polled until it is `Ready`: `poll_open_bidi`
+      (stream credit), `poll_finish` -/
+  | wait
+  /-- one `stream::write` -/
+  | write (w : WB)
+deriving Repr, DecidableEq
+
+inductive StageRes where
+  | done (out : Bytes) (rest : List Acc)
+  | failed (out : Bytes) (e : WErr)
+  | pending (out : Bytes)
+  | panic
+deriving Repr, DecidableEq
+
+def waitE (out : Bytes) : List Acc → StageRes
+  | [] => .pending out
+  | .take 0 :: r => waitE out r
+  | .take (_ + 1) :: r => .done out r
+  | .err e :: _ => .failed out e
+
+def WriteResE.stage : WriteResE → StageRes
+  | .ready out rest => .done out rest
+  | .failed out e => .failed out e
+  | .pending out _ => .pending out
+  | .panic => .panic
+
+def Stage.run : Stage → Bytes → List Acc → StageRes
+  | .wait, out, sc => waitE out sc
+  | .write w, out, sc => (w.drainE out sc).stage
+
+inductive CallRes where
+  /-- the call returned `Ok`; `out` = everything it wrote -/
+  | ok (out : Bytes)
+  /-- the call returned `Err(e)` after `out` had gone out -/
+  | failed (out : Bytes) (e : WErr)
+  /-- the script is exhausted and the call has not returned -/
+  | pending (out : Bytes)
+  | panic
+deriving Repr, DecidableEq
+
+def stagesE : List Stage → Bytes → List Acc → CallRes
+  | [], out, _ => .ok out
+  | s :: ss, out, sc =>
+    match s.run out sc with
+    | .done out' rest => stagesE ss out' rest
+    | .failed out' e => .failed out' e
+    | .pending out' => .pending out'
+    | .panic => .panic
+
+/-- an API call of the send side -/
+structure SendCall where
+  /-- client `send_request`: `poll_open_bidi` first -/
+  opens : Bool := false
+  /-- the `WriteBuf`s handed to `stream::write`, in order (`finish`: the grease frame when one
+      is due, otherwise none) -/
+  writes : List WB
+  /-- `finish`: `poll_finish` at the end -/
+  finishes : Bool := false
+deriving Repr, DecidableEq
+
+def SendCall.stages (c : SendCall) : List Stage :=
+  (if c.opens then [Stage.wait] else []) ++ c.writes.map Stage.write ++
+    (if c.finishes then [Stage.wait] else [])
+
+/-- the call against the transport's answers -/
+def callE (c : SendCall) (script : List Acc) : CallRes := stagesE c.stages [] script
+
+/-- number of answers that let a stage make progress -/
+def posTakes : List Acc → Nat
+  | [] => 0
+  | .take 0 :: r => posTakes r
+  | .take (_ + 1) :: r => posTakes r + 1
+  | .err _ :: r => posTakes r
+
+def Stage.need : Stage → Nat
+  | .wait => 1
+  | .write w => w.remaining
+
+def Stage.content : Stage → Bytes
+  | .wait => []
+  | .write w => w.view
+
+/-- progress answers that certainly suffice: one per wait, one per byte -/
+def SendCall.need (c : SendCall) : Nat := (c.stages.map Stage.need).sum
+
+/-- everything the call writes when it succeeds -/
+def SendCall.content (c : SendCall) : Bytes := (c.stages.map Stage.content).flatten
+
 end H3.WriteBuf
